@@ -89,7 +89,7 @@ PLANS['C12'] = {
     'quick': [cmp_run('pairsQ', 'quick'), cmp_run('pairsBig', 'big'), cmp_run('pairsNum', 'nums'), cmp_run('fold', 'fold'), cmp_run('perm4', 'perm4')],
     'thorough': [cmp_run('pairsT', 'thorough'), cmp_run('pairsBig', 'big'), cmp_run('pairsNum', 'nums'), cmp_run('fold', 'fold'), cmp_run('perm4', 'perm4')],
     'rule': 'all ordered pairs (a, b, case flag) over a finite universe of values (all scalars incl. boundary numbers, all containers of width <= 2 '
-            'over them with keys a/A/b, nested containers in thorough); non-trivial = every pair (each is compared in both orders and with ownership flags toggled); distinct by construction',
+            'over them with keys a/A/b, nested containers in thorough); all pairs of all 61 catalogue numbers (bare and inside an array); all pairs of the 384 objects of four members in every order with two values; the case-folding byte table applied to all 65 025 byte pairs in a key position; very wide containers and long strings against their own variants; non-trivial = every pair (each is compared in both orders, with ownership flags toggled and with left-over keys on array elements); distinct by construction',
     'assumptions': ['objects have distinct keys (distinct after case folding when comparing case-insensitively), as the property states',
                     'number equality is tabulated in NumCatalogue (exact rational arithmetic) for a catalogue of boundary doubles'],
     'technique': 'TLC checks the transcription of cJSON_Compare against declarative semantic equality on all pairs of a value universe (plus symmetry, reflexivity); every pair replayed on the real cJSON_Compare in both orders, flags toggled, arguments fingerprinted',
@@ -186,7 +186,7 @@ PLANS['C13'] = {
     'quick': [min_run('bytes6', 'bytes', 6), min_run('tok4', 'tok', 4), min_run('big', 'big', 0), min_run('mtable', 'table', 0)],
     'thorough': [min_run('bytes8', 'bytes', 8), min_run('tok5', 'tok', 5), min_run('big', 'big', 0), min_run('mtablefull', 'table', 0, extra='--fulltable')],
     'rule': 'ALL strings up to the length bound over {space, newline, /, *, quote, backslash, a} (safety, and value preservation where the string is JSON with comments) and all sequences of tokens '
-            '(brackets, comma, number, string literals with escaped quote / escaped backslash / blank / comment opener inside, comment openers and closers incl. /*/); non-trivial = every case; distinct by construction',
+            '(brackets, comma, number, string literals with escaped quote / escaped backslash / blank / comment opener inside, comment openers and closers incl. /*/, whole comments); every byte value in every position of longer texts; the transparency tables of the machine applied to every 3-byte body of a line comment, a block comment and a string (27 million in quick); 1 000 - 2 000 000 adjacent comments; non-trivial = every case; distinct by construction',
     'assumptions': ['accesses beyond the terminator are observed by placing the terminator on the last accessible byte; writes before the buffer by a canary area'],
     'technique': 'TLC runs the transcribed Minify machine on every string of the universe (indexed reads, progress measure) and checks it against the declarative "remove comments and whitespace outside strings" for JSON-with-comments inputs; every case replayed in place on a guard-page buffer',
     'level_text': 'Safety is quantified over all zero-terminated strings: TLC enumerates all strings over the bytes that steer the algorithm up to a length bound, with every read of the transcription index-checked and a progress bound; for inputs that are JSON with comments the result must equal the declarative minified form (which TLC also proves to parse to the same value and to be a fixed point). The real function runs on each string with the terminator as last accessible byte.',
@@ -571,3 +571,14 @@ for _p in ('C17', 'C18'):       # generation sorts both documents: the scale dir
     PLANS[_p]['thorough'] = PLANS[_p]['thorough'] + [big_run('sortscale', 'sort', scale='{65535, 65536, 70001}')]
 PLANS['C06']['quick'] = PLANS['C06']['quick'] + [big_run('keylens', 'keys')]
 PLANS['C06']['thorough'] = PLANS['C06']['thorough'] + [big_run('keylens', 'keys')]
+
+# ---------------------------------------------------------------------------------------------- what the later tiers add (texts for evidence)
+PLANS['C15']['rule'] += '; index tokens congruent to small indices modulo 2^32 / 2^64; ladders of tokens of 256 - 2048 raw bytes with the escape at the cut under object, array and scalar parents; every lookup and construction repeated with left-over keys on array elements and with ownership flags'
+PLANS['C16']['rule'] += '; index tokens beyond 2^31 / 2^32 / 2^64 and member names of 256 / 300 bytes in every path position; test values that repeat a member name; every case also on documents and patches built with constant keys and string references'
+PLANS['C17']['rule'] += '; tolerance-boundary numbers, booleans / null with differently filled payload fields, high-byte next to ASCII names, nested unsorted objects, documents whose nested containers are held through reference nodes, pointers longer than 4 KiB, generated patches applied after both inputs were deleted; generation on objects of 65 535 - 70 001 members'
+PLANS['C18']['rule'] += '; tolerance-boundary numbers, targets and patches with ownership flags, generated merge patches applied after both inputs were deleted; generation on objects of 65 535 - 70 001 members'
+PLANS['C19']['rule'] += '; key lists of up to 1 021 members, word lists whose first difference is one of case only (orders judged by MC_UtilCheck); 65 535 - 1 048 579 members in four key orders'
+PLANS['C11']['rule'] += '; deep and wide trees, nesting around CJSON_CIRCULAR_LIMIT along the first, second and last child (limits2 build), trees whose nested containers are held through up to 99 nested reference nodes with the innermost reference doubled'
+PLANS['C06']['rule'] += '; lookups by names of every length 1-70 and around 128 ... 1024 with a longer key in front'
+PLANS['C07']['rule'] += '; strings of up to 1.7 MB and one value of 360 MB printed into a tracked caller buffer'
+PLANS['C08']['rule'] += '; string literals of up to 9000 escape units with every request refused in turn under both allocator configurations'
